@@ -1,6 +1,8 @@
 package sim
 
 import (
+	"compress/gzip"
+	"bytes"
 	"context"
 	"errors"
 	"fmt"
@@ -316,6 +318,21 @@ func (c *simConn) respond(now time.Duration) {
 	switch base {
 	case "closeEarly":
 		c.hasEOF, c.eofAt = true, now
+	case "gzip":
+		// a provider (or the CDN in front of it) that compresses its answer when the request allows it,
+		// as net/http's transport does by default (and then undoes it without the caller noticing)
+		body := strings.Join(args, ":")
+		if !strings.Contains(strings.ToLower(string(c.reqBuf)), "accept-encoding: gzip") {
+			c.out = append(c.out, chunk{now, append(hdr(200, len(body)), body...)})
+			break
+		}
+		var zb bytes.Buffer
+		zw := gzip.NewWriter(&zb)
+		zw.Write([]byte(body))
+		zw.Close()
+		h := fmt.Sprintf("HTTP/1.1 200 S\r\nContent-Type: text/plain\r\nContent-Encoding: gzip\r\nContent-Length: %d\r\nConnection: close\r\n\r\n", zb.Len())
+		c.out = append(c.out, chunk{now, append([]byte(h), zb.Bytes()...)})
+		c.w.stat("fault.http.gzip-answer")
 	case "status":
 		code := atoi(args[0])
 		body := strings.Join(args[1:], ":")
